@@ -22,7 +22,7 @@ use shared::terms::{Term, TriplePattern};
 use std::collections::{BTreeMap, BTreeSet, HashMap, HashSet};
 use std::rc::Rc;
 
-const RULE: &str = "four generators: names (20 hand-written rule templates - copy, swap, join, left/right/non-linear closure, symmetric, multi-conclusion, constants and repeated variables in premise/head, variable predicates, mutual recursion, rules whose own variables are called A/B or v0/v1 - x 12 goal binding shapes incl. repeated goal variable and variable predicate x 14 goal-variable namings incl. v0,v1,.. x seeded fact sets), random (1-3 safe rules, 1-2 premises, 1-2 conclusions, <=12 facts over 2-4 constants, random goal shape, goal variable names drawn from plain names, the rules' own names and v0..v6), depth (chains of length 2-13 under right/left-linear closure, marker propagation, even/odd mutual recursion and ladders of copy/swap rules, so that minimal derivation heights 0..13 occur) and filters (rules with numeric filters, reported as a separate class). Every case runs the goal as drawn and with canonically renamed variables (plus a run with shuffled fact/rule order in a third of the cases). Cases whose predicted search size exceeds a fixed number of unification steps are skipped and counted. Non-trivial = the goal matches at least one model fact of derivation height >= 1 (a rule is needed); distinct by hash of (facts, rules, goal with its variable names).";
+const RULE: &str = "four generators: names (20 hand-written rule templates - copy, swap, join, left/right/non-linear closure, symmetric, multi-conclusion, constants and repeated variables in premise/head, variable predicates, mutual recursion, rules whose own variables are called A/B or v0/v1 - x 12 goal binding shapes incl. repeated goal variable and variable predicate x 14 goal-variable namings incl. v0,v1,.. x seeded fact sets), random (1-3 safe rules, 1-2 premises, 1-2 conclusions, <=12 facts over 2-4 constants, random goal shape, goal variable names drawn from plain names, the rules' own names and v0..v6), depth (chains of length 2-13 under right/left-linear closure, marker propagation, even/odd mutual recursion and ladders of copy/swap rules, so that minimal derivation heights 0..13 occur) and filters (rules with numeric filters, reported as a separate class). Every case runs the goal as drawn and with canonically renamed variables (in a third of the random cases the program is also run with facts and rules in shuffled order and the answer sets are compared). Cases whose predicted search size exceeds a fixed number of unification steps are skipped and counted. Non-trivial = the goal matches at least one model fact of derivation height >= 1 (a rule is needed); distinct by hash of (facts, rules, goal with its variable names).";
 
 /// completeness is demanded only up to this minimal derivation height (engine bound: 10)
 const DEMANDED_HEIGHT: u32 = 8;
@@ -624,6 +624,8 @@ struct Analysis {
     set_drawn: Option<BTreeSet<T3>>,
     set_renamed: Option<BTreeSet<T3>>,
     name_cause: &'static str,
+    /// clash-free run, answers around the engine's bound: (expected, returned) at heights 9-10, returned at heights >= 11
+    near_bound: (u64, u64, u64),
     model_size: usize,
 }
 
@@ -720,6 +722,15 @@ fn analyse(cs: &Case, limit: f64) -> Analysis {
         (out1.clone(), judge(&out1, &or))
     };
     if let Ok(o) = &out2 {
+        for (t, h) in &or.expected {
+            let got = o.ground.contains_key(t) as u64;
+            if *h == 9 || *h == 10 {
+                an.near_bound.0 += 1;
+                an.near_bound.1 += got;
+            } else if *h >= 11 {
+                an.near_bound.2 += got;
+            }
+        }
         // the predictor models a search without name clashes; how often it is exact is evidence
         // that the workload filter means something
         if !has_filters {
@@ -1302,6 +1313,9 @@ fn record(ctx: &mut Ctx, cs: &Case, an: &Analysis, shrunk: &mut HashSet<String>,
         ctx.max("max_height_of_a_returned_answer", *h as u64);
     }
     ctx.count("entailed_answers_above_demanded_height_not_returned", an.beyond_demand_missing as u64);
+    ctx.count("clash_free_runs.answers_of_height_9_or_10.expected", an.near_bound.0);
+    ctx.count("clash_free_runs.answers_of_height_9_or_10.returned", an.near_bound.1);
+    ctx.count("clash_free_runs.answers_of_height_11_or_more.returned", an.near_bound.2);
     if an.expected.values().any(|h| *h >= 1) {
         ctx.nontrivial(hash_str(&case_json(cs).to_string()));
         ctx.count("cases_needing_a_rule", 1);
@@ -1349,7 +1363,7 @@ fn cap_address_space(bytes: u64) {
 }
 
 fn run(ctx: &mut Ctx) {
-    cap_address_space(4 << 30);
+    cap_address_space(2 << 30);
     let thorough = ctx.thorough();
     let limit: f64 = ctx.by_tier(40_000.0, 200_000.0);
     let depth_limit: f64 = ctx.by_tier(160_000.0, 400_000.0);
@@ -1357,7 +1371,7 @@ fn run(ctx: &mut Ctx) {
 
     // --- names: templates x goal shapes x goal-variable namings, complete per fact variant
     let per_variant = (TEMPLATES.len() * N_SHAPES * NAMINGS.len()) as u64;
-    ctx.phase("names", per_variant * ctx.by_tier(2, 12));
+    ctx.phase("names", per_variant * ctx.by_tier(1, 12));
     while let Some(k) = ctx.next_case() {
         if !ctx.within(0.45) {
             ctx.count("names_phase_cut_by_budget", 1);
@@ -1377,7 +1391,7 @@ fn run(ctx: &mut Ctx) {
     }
 
     // --- depth: long derivations around the documented bound
-    ctx.phase("depth", ctx.by_tier(960, 20_000));
+    ctx.phase("depth", ctx.by_tier(800, 20_000));
     while let Some(k) = ctx.next_case() {
         if !ctx.within(0.65) {
             ctx.count("depth_phase_cut_by_budget", 1);
@@ -1401,7 +1415,7 @@ fn run(ctx: &mut Ctx) {
     }
 
     // --- filters: separately reported class
-    ctx.phase("filters", ctx.by_tier(480, 10_000));
+    ctx.phase("filters", ctx.by_tier(400, 10_000));
     while let Some(k) = ctx.next_case() {
         if !ctx.within(0.72) {
             ctx.count("filters_phase_cut_by_budget", 1);
@@ -1417,7 +1431,7 @@ fn run(ctx: &mut Ctx) {
     }
 
     // --- random programs
-    ctx.phase("random", ctx.by_tier(12_000, 400_000));
+    ctx.phase("random", ctx.by_tier(10_000, 400_000));
     while let Some(k) = ctx.next_case() {
         let mut r = ctx.rng(k);
         let cs = gen_random(&mut r, thorough);
